@@ -104,6 +104,9 @@ class AffineParser(BaseParser):
         except NotImplementedError as e:
             # Semi-affine expressions (non-constant right-hand side) are not supported
             raise ParseError(binop.span, str(e))
+        except ZeroDivisionError:
+            # Constant folding of e.g. `4 floordiv 0`
+            raise ParseError(binop.span, "division or modulo by zero")
 
     def _parse_binop_rhs(
         self,
